@@ -311,7 +311,7 @@ type ctxSite struct{ fn, path, bind, built string }
 //     loadTracer, buildCache) and the package-level variables.
 func (p *pkg) emitLifetimes(b *strings.Builder) {
 	var sites []ctxSite
-	var stores, calls, rebinds, envWrites, loadedStores []string
+	var stores, calls, rebinds, envWrites, loadedStores, paramWrites []string
 	for _, fd := range p.allFuncs() {
 		if fd.Body == nil {
 			continue
@@ -373,6 +373,32 @@ func (p *pkg) emitLifetimes(b *strings.Builder) {
 			}
 			return "?"
 		}
+		// parameters of reference kind (slices, maps, pointers): writes to their
+		// elements or through them reach the caller's data
+		params := map[string]string{}
+		if fd.Type.Params != nil {
+			for _, f := range fd.Type.Params.List {
+				kind := ""
+				switch t := f.Type.(type) {
+				case *ast.ArrayType:
+					if t.Len == nil {
+						kind = "slice"
+					}
+				case *ast.MapType:
+					kind = "map"
+				case *ast.StarExpr:
+					kind = "pointer"
+				case *ast.Ellipsis:
+					kind = "slice"
+				}
+				if kind == "" {
+					continue
+				}
+				for _, nm := range f.Names {
+					params[nm.Name] = kind
+				}
+			}
+		}
 		var boundVar string
 		var boundEnd token.Pos
 		ast.Inspect(fd.Body, func(n ast.Node) bool {
@@ -399,6 +425,14 @@ func (p *pkg) emitLifetimes(b *strings.Builder) {
 				}
 			case *ast.AssignStmt:
 				for _, l := range x.Lhs {
+					// element of a slice / map parameter: p[i] = ...
+					if ix, ok := l.(*ast.IndexExpr); ok {
+						if id, ok := ix.X.(*ast.Ident); ok {
+							if k := params[id.Name]; k == "slice" || k == "map" {
+								paramWrites = append(paramWrites, fmt.Sprintf("(%s, %s, %s)", coqStr(fname), coqStr(k), coqStr(p.src(x))))
+							}
+						}
+					}
 					// writes to the Builder's env: env.f = / env.f[k] = / b.env.f = / l.env.f = / e.f = (methods of env)
 					target := l
 					if ix, ok := target.(*ast.IndexExpr); ok {
@@ -423,6 +457,17 @@ func (p *pkg) emitLifetimes(b *strings.Builder) {
 					}
 				}
 			case *ast.CallExpr:
+				// append(p, ...) / copy(p, ...) / sort.X(p) on a slice parameter can write the caller's array
+				if id, ok := x.Fun.(*ast.Ident); ok && (id.Name == "append" || id.Name == "copy") && len(x.Args) > 0 {
+					if a, ok := x.Args[0].(*ast.Ident); ok && params[a.Name] == "slice" {
+						paramWrites = append(paramWrites, fmt.Sprintf("(%s, %s, %s)", coqStr(fname), coqStr(id.Name), coqStr(p.src(x))))
+					}
+				}
+				if sel, ok := x.Fun.(*ast.SelectorExpr); ok && p.src(sel.X) == "sort" && len(x.Args) > 0 {
+					if a, ok := x.Args[0].(*ast.Ident); ok && params[a.Name] == "slice" {
+						paramWrites = append(paramWrites, fmt.Sprintf("(%s, %s, %s)", coqStr(fname), coqStr("sort"), coqStr(p.src(x))))
+					}
+				}
 				if fname == "Builder.Build" {
 					if sel, ok := x.Fun.(*ast.SelectorExpr); ok && sel.Sel.Name == "buildNodes" {
 						arg := ""
@@ -449,6 +494,10 @@ func (p *pkg) emitLifetimes(b *strings.Builder) {
 	// every store into a loader's "loaded" map (function, statement)
 	fmt.Fprintf(b, "Definition env_writes : list (string * string) :=\n  %s.\n\n", coqList(envWrites))
 	fmt.Fprintf(b, "Definition loaded_stores : list (string * string) :=\n  %s.\n\n", coqList(loadedStores))
+	// every write to an element of a slice or map PARAMETER (p[i] = ..), and
+	// every append / copy / sort whose first argument is a slice parameter:
+	// (function, kind, statement)
+	fmt.Fprintf(b, "Definition param_writes : list (string * string * string) :=\n  %s.\n\n", coqList(paramWrites))
 	for _, s := range []string{"Builder", "env", "buildOpts", "dockerOpts", "buildContext", "loader", "loadTracer", "buildCache"} {
 		fmt.Fprintf(b, "Definition layout_%s : list (string * string * string) :=\n  %s.\n\n",
 			s, coqList(p.structLayout(s)))
